@@ -6,8 +6,18 @@
 //
 //   rw <size> <sched>
 //       -> rw calls=<n>:<r>,... res=<ok|sys:E> total=<bytes> inorder=<0|1> [runaway=1]
-//   run fmt=<opl|xml|pbf|mock> comp=<none|gz|bz2> fsync=<0|1> script=<s> fault=<f>
+//   run fmt=<opl|xml|pbf|debug|ids|blackhole|mock> comp=<none|gz|bz2> fsync=<0|1> script=<s> fault=<f>
 //       stdio=<cookie|real> qmax=<n> pool=<n> perturb=<seed> trace=<0|1> [mock=<m>] [pbfopt=<s>]
+//       [ibuf=<n>] [tag=<n>]
+//     script: comma list of  b<k> operator()(Buffer with k objects)   a1 operator()(Buffer holding only an Area)
+//                            i<k> k x operator()(Item: node/way/relation)   j<k> k x operator()(Item: an Area)
+//                            f flush()   c close()
+//     ibuf=<n>: Writer::set_buffer_size(n) (internal item buffer; "buffer is full" path)
+//     tag=<n>:  every object gets n extra pseudo-random tag-value characters (badly compressible output)
+//     fault parts: w@<o>:<E>[:p|:t|:pt]  wk@<k>:<E> (the k-th write(2) call fails ONCE, later ones succeed)
+//                  fsync:<E>  close:<k>:<E>  short:<m>  eintr:<n>  rlimit@<o>  dup  fdopen
+//     debug/ids have no reader: the file is compared with a reference (debug: what a fresh Writer
+//     produces for ALL handed-over objects in ONE buffer; ids: an independent re-implementation)
 //       -> run ctor=.. calls=.. file=.. decode=.. nobj=.. match=.. prefix=.. w=c/b/f/e/s
 //          fs=c/f cl=c/f dup=n late=n hang=0|1 [chunks=..] [leaked=n]
 //   probe comp=<none|gz|bz2> stdio=<cookie|real> [fsync=<0|1>]
@@ -28,6 +38,8 @@
 #include <osmium/builder/attr.hpp>
 #include <osmium/builder/osm_object_builder.hpp>
 #include <osmium/io/bzip2_compression.hpp>
+#include <osmium/io/debug_output.hpp>
+#include <osmium/io/ids_output.hpp>
 #include <osmium/io/gzip_compression.hpp>
 #include <osmium/io/opl_input.hpp>
 #include <osmium/io/opl_output.hpp>
@@ -169,6 +181,7 @@ struct WFault {
     bool partial = false;
     bool transient = false;
     bool spent = false; // transient fault already delivered
+    int64_t call = 0;   // > 0: "the call-th write(2) on the output fails once" (off is ignored)
 };
 
 struct SchedTok {
@@ -337,6 +350,16 @@ static ssize_t target_write(int fd, const void* buf, size_t n) {
     for (int i = 0; i < p.nw; ++i) {
         WFault& f = p.w[i];
         if (f.spent) {
+            continue;
+        }
+        if (f.call > 0) {
+            if (static_cast<uint64_t>(f.call) == idx) {
+                f.spent = true;
+                g_cnt.wfaults.fetch_add(1, std::memory_order_relaxed);
+                fault_fired();
+                errno = f.err;
+                return -1;
+            }
             continue;
         }
         if (p.off + static_cast<int64_t>(m) > f.off) {
@@ -678,10 +701,22 @@ public:
 
 }; // class MockOutputFormat
 
-const bool registered_mock_output = osmium::io::detail::OutputFormatFactory::instance().register_output_format(osmium::io::file_format::debug,
-    [](osmium::thread::Pool& pool, const osmium::io::File& file, osmium::io::detail::future_string_queue_type& output_queue) {
-        return new MockOutputFormat(pool, file, output_queue);
-});
+// The mock encoder borrows the factory slot of file_format::debug for the duration of a
+// `fmt=mock` run; every other run (re-)installs the real DebugOutputFormat there.
+void install_debug_slot(bool mock) {
+    auto& factory = osmium::io::detail::OutputFormatFactory::instance();
+    if (mock) {
+        factory.register_output_format(osmium::io::file_format::debug,
+            [](osmium::thread::Pool& pool, const osmium::io::File& file, osmium::io::detail::future_string_queue_type& output_queue) -> osmium::io::detail::OutputFormat* {
+                return new MockOutputFormat(pool, file, output_queue);
+        });
+    } else {
+        factory.register_output_format(osmium::io::file_format::debug,
+            [](osmium::thread::Pool& pool, const osmium::io::File& file, osmium::io::detail::future_string_queue_type& output_queue) -> osmium::io::detail::OutputFormat* {
+                return new osmium::io::detail::DebugOutputFormat(pool, file, output_queue);
+        });
+    }
+}
 
 // ---- objects -----------------------------------------------------------------------------------------
 
@@ -707,12 +742,30 @@ osmium::Location obj_location(uint64_t g) {
                             static_cast<double>(static_cast<int64_t>(g % 170) - 85) + 0.25};
 }
 
+int64_t g_tag_extra = 0; // run option tag=<n>
+
+// tag value of object g: "value-<g>" plus g_tag_extra pseudo-random characters (a function of g
+// only) so that the compressed output of a run can be made larger than zlib's / stdio's buffers
+std::string tag_value(uint64_t g) {
+    std::string v = "value-" + std::to_string(g);
+    if (g_tag_extra > 0) {
+        static const char alphabet[] = "abcdefghijklmnopqrstuvwxyzABCDEFGHIJKLMNOPQRSTUVWXYZ0123456789-_";
+        vh::SplitMix64 seeder{g ^ 0xc08c08c08c08ULL};
+        vh::SplitMix64 rng{seeder.next()}; // streams of different objects are unrelated
+        v += '-';
+        for (int64_t i = 0; i < g_tag_extra; ++i) {
+            v += alphabet[rng.next() & 63U];
+        }
+    }
+    return v;
+}
+
 Obj expected_obj(uint64_t g) {
     Obj o;
     o.type = obj_type(g);
     o.id = static_cast<int64_t>(g);
     o.version = 1;
-    o.tagval = "value-" + std::to_string(g);
+    o.tagval = tag_value(g);
     if (o.type == 1) {
         const auto loc = obj_location(g);
         o.x = loc.x();
@@ -729,7 +782,7 @@ void add_object(Buffer& buffer, uint64_t g) {
     using namespace osmium::builder::attr; // NOLINT(google-build-using-namespace)
     const std::string user = "u" + std::to_string(g % 5);
     const std::string key = "k" + std::to_string(g % 4);
-    const std::string val = "value-" + std::to_string(g);
+    const std::string val = tag_value(g);
     const auto id = static_cast<osmium::object_id_type>(g);
     const osmium::Timestamp ts{static_cast<uint32_t>(1500000000ULL + g)};
     const auto uid = static_cast<osmium::user_id_type>(1 + g % 5);
@@ -1154,7 +1207,7 @@ std::string op_rw(const std::vector<std::string>& w) {
 // ---- op: run ---------------------------------------------------------------------------------------------
 
 struct ScriptItem {
-    char kind; // b, i, a, f, c
+    char kind; // b, i, a, j, f, c
     int64_t k;
 };
 
@@ -1171,6 +1224,8 @@ struct RunSpec {
     bool trace = false;
     std::string mock = "none";
     std::string pbfopt;
+    int64_t ibuf = 0;
+    int64_t tag = 0;
     // parsed
     std::vector<ScriptItem> items;
     int64_t rlimit = -1;
@@ -1195,7 +1250,7 @@ bool parse_script(RunSpec& s) {
             s.items.push_back(ScriptItem{t[0], 0});
             continue;
         }
-        if (t.size() < 2 || (t[0] != 'b' && t[0] != 'i' && t[0] != 'a')) {
+        if (t.size() < 2 || (t[0] != 'b' && t[0] != 'i' && t[0] != 'a' && t[0] != 'j')) {
             return false;
         }
         int64_t k = 0;
@@ -1237,7 +1292,17 @@ bool parse_fault(RunSpec& s, ip::Plan& p) {
             continue;
         }
         const auto f = split(part, ':');
-        if (f[0].compare(0, 2, "w@") == 0) {
+        if (f[0].compare(0, 3, "wk@") == 0) {
+            if (f.size() != 2 || p.nw >= 4) {
+                return false;
+            }
+            ip::WFault wf;
+            if (!parse_i64(f[0].substr(3), wf.call) || wf.call < 1 || !parse_errno(f[1], wf.err) || wf.err == EINTR) {
+                return false;
+            }
+            wf.transient = true;
+            p.w[p.nw++] = wf;
+        } else if (f[0].compare(0, 2, "w@") == 0) {
             if (f.size() < 2 || f.size() > 3 || p.nw >= 4) {
                 return false;
             }
@@ -1359,7 +1424,7 @@ bool parse_run_fields(const std::vector<std::string>& w, RunSpec& s, bool probe)
         } else if (probe) {
             return false;
         } else if (key == "fmt") {
-            if (val != "opl" && val != "xml" && val != "pbf" && val != "mock") {
+            if (val != "opl" && val != "xml" && val != "pbf" && val != "mock" && val != "debug" && val != "ids" && val != "blackhole") {
                 return false;
             }
             s.fmt = val;
@@ -1387,6 +1452,14 @@ bool parse_run_fields(const std::vector<std::string>& w, RunSpec& s, bool probe)
             s.mock = val;
         } else if (key == "pbfopt") {
             s.pbfopt = val;
+        } else if (key == "ibuf") {
+            if (!parse_i64(val, s.ibuf) || s.ibuf < 64 || s.ibuf > 100000000) {
+                return false;
+            }
+        } else if (key == "tag") {
+            if (!parse_i64(val, s.tag) || s.tag > 900) {
+                return false;
+            }
         } else {
             return false;
         }
@@ -1404,7 +1477,7 @@ bool parse_run_fields(const std::vector<std::string>& w, RunSpec& s, bool probe)
 }
 
 std::string format_string(const RunSpec& s, bool for_writing) {
-    std::string f = s.fmt == "opl" ? "opl" : s.fmt == "xml" ? "osm" : s.fmt == "pbf" ? "pbf" : "debug";
+    std::string f = s.fmt == "opl" ? "opl" : s.fmt == "xml" ? "osm" : s.fmt == "pbf" ? "pbf" : s.fmt == "ids" ? "ids" : s.fmt == "blackhole" ? "blackhole" : "debug";
     if (s.comp == "gz") {
         f += ".gz";
     } else if (s.comp == "bz2") {
@@ -1418,7 +1491,7 @@ std::string format_string(const RunSpec& s, bool for_writing) {
 }
 
 std::string file_suffix(const RunSpec& s) {
-    std::string f = s.fmt == "opl" ? ".opl" : s.fmt == "xml" ? ".osm" : s.fmt == "pbf" ? ".osm.pbf" : ".debug";
+    std::string f = s.fmt == "opl" ? ".opl" : s.fmt == "xml" ? ".osm" : s.fmt == "pbf" ? ".osm.pbf" : s.fmt == "ids" ? ".ids" : s.fmt == "blackhole" ? ".blackhole" : s.fmt == "mock" ? ".mock" : ".debug";
     if (s.comp == "gz") {
         f += ".gz";
     } else if (s.comp == "bz2") {
@@ -1456,6 +1529,7 @@ std::string mock_expected(const RunSpec& s) {
                 }
                 break;
             case 'i':
+            case 'j':
                 pending += it.k;
                 break;
             case 'f':
@@ -1552,6 +1626,90 @@ void decode_real(const RunSpec& s, const std::string& path, const std::vector<ui
     r.match = is_prefix && decoded.size() == handed.size();
 }
 
+// ---- formats without a reader: compare with a reference ------------------------------------------
+
+// `ids` format (ids_output_format.hpp), written down independently: one line per object,
+// type letter + id
+std::string ids_reference(const std::vector<uint64_t>& handed) {
+    std::string out;
+    for (const uint64_t g : handed) {
+        out += obj_type(g) == 3 ? 'r' : (obj_type(g) == 2 ? 'w' : 'n');
+        out += std::to_string(g);
+        out += '\n';
+    }
+    return out;
+}
+
+// `debug` format: what a FRESH Writer (no faults: the plan is inactive, its fd is no target)
+// writes for all handed-over objects in ONE buffer with the same header
+bool debug_reference(const std::string& path, const std::vector<uint64_t>& handed, std::string& out) {
+    const std::string ref = path + ".ref.debug";
+    bool ok = true;
+    try {
+        osmium::io::Header header;
+        header.set("generator", "c08");
+        osmium::io::Writer writer{osmium::io::File{ref, "debug"}, header, osmium::io::overwrite::allow};
+        if (!handed.empty()) {
+            Buffer buffer{1024, Buffer::auto_grow::yes};
+            for (const uint64_t g : handed) {
+                add_object(buffer, g);
+            }
+            writer(std::move(buffer));
+        }
+        writer.close();
+        RunSpec plain;
+        read_decompressed(plain, ref, out);
+    } catch (...) {
+        ok = false;
+    }
+    ::unlink(ref.c_str());
+    return ok;
+}
+
+std::size_t count_lines_starting(const std::string& data, const char* const* prefixes, std::size_t np) {
+    std::size_t n = 0;
+    std::size_t pos = 0;
+    while (pos < data.size()) {
+        for (std::size_t i = 0; i < np; ++i) {
+            const std::size_t len = std::strlen(prefixes[i]);
+            if (data.compare(pos, len, prefixes[i]) == 0) {
+                ++n;
+                break;
+            }
+        }
+        const std::size_t nl = data.find('\n', pos);
+        if (nl == std::string::npos) {
+            break;
+        }
+        pos = nl + 1;
+    }
+    return n;
+}
+
+void decode_reference(const RunSpec& s, const std::string& path, const std::vector<uint64_t>& handed, RunResult& r) {
+    std::string data;
+    try {
+        read_decompressed(s, path, data);
+        r.decode = "ok";
+    } catch (...) {
+        r.decode = "err:" + classify(std::current_exception());
+    }
+    std::string expected;
+    if (s.fmt == "ids") {
+        expected = ids_reference(handed);
+        static const char* const pre[] = {"n", "w", "r"};
+        r.nobj = count_lines_starting(data, pre, 3);
+    } else if (s.fmt == "debug") {
+        if (!debug_reference(path, handed, expected)) {
+            r.decode = "err:reference";
+        }
+        static const char* const pre[] = {"node ", "way ", "relation "};
+        r.nobj = count_lines_starting(data, pre, 3);
+    } // blackhole: nothing is ever written
+    r.match = data == expected;
+    r.prefix = data.size() <= expected.size() && expected.compare(0, data.size(), data) == 0;
+}
+
 template <typename F>
 std::string guarded(F&& f) {
     try {
@@ -1592,6 +1750,8 @@ RunResult do_run(RunSpec& s) {
     g_mock.kind = s.mock_kind;
     g_mock.j = s.mock_j;
     g_mock.counter = 0;
+    install_debug_slot(s.fmt == "mock");
+    g_tag_extra = s.tag;
     {
         const std::lock_guard<std::mutex> lock{g_info.mx};
         g_info.path = path;
@@ -1643,6 +1803,9 @@ RunResult do_run(RunSpec& s) {
                 writer.emplace(file, header, osmium::io::overwrite::allow, sync, *pool);
             } else {
                 writer.emplace(file, header, osmium::io::overwrite::allow, sync);
+            }
+            if (s.ibuf > 0) {
+                writer->set_buffer_size(static_cast<std::size_t>(s.ibuf));
             }
             return "ok";
         });
@@ -1706,6 +1869,26 @@ RunResult do_run(RunSpec& s) {
                         }
                         break;
                     }
+                    case 'j': {
+                        // Area items handed over one by one: they sit in the Writer's internal
+                        // buffer until flush() / operator()(Buffer&&) / "buffer is full" / close()
+                        using namespace osmium::builder::attr; // NOLINT(google-build-using-namespace)
+                        outcome = "ok";
+                        for (int64_t i = 0; i < it.k; ++i) {
+                            ++g;
+                            Buffer buffer{1024, Buffer::auto_grow::yes};
+                            osmium::builder::add_area(buffer, _id(static_cast<osmium::object_id_type>(g)));
+                            const std::string o = guarded([&]() -> std::string {
+                                (*writer)(*buffer.begin());
+                                return "ok";
+                            });
+                            if (o != "ok") {
+                                outcome = o;
+                                break;
+                            }
+                        }
+                        break;
+                    }
                     case 'f':
                         outcome = guarded([&]() -> std::string {
                             writer->flush();
@@ -1752,6 +1935,8 @@ RunResult do_run(RunSpec& s) {
     r.file = file_size_of(path);
     if (s.fmt == "mock") {
         decode_mock(s, path, r);
+    } else if (s.fmt == "debug" || s.fmt == "ids" || s.fmt == "blackhole") {
+        decode_reference(s, path, handed, r);
     } else {
         decode_real(s, path, handed, r);
     }
